@@ -12,6 +12,13 @@ Cfg(v, n, g, o) == [v |-> v, n |-> n, g |-> g, o |-> o]
 Ns == {0, 1, 2, 3}
 Gs == {<<>>, <<"a">>, <<"a", "b">>}
 Exprs == {"true", "false", "is_present($a)", "$b == \"x\"", "$nosuch", "NR % 2 == 1", "is_present($a) && $b == \"y\""}
+\* literal grep patterns over the texts "a=1,b=x" / "1,x" of the records above (one-character strings; no regex operators)
+GrepPatterns == {<<"a", "=", "1">>, <<"1", ",", "b">>, <<"x">>, <<"=">>, <<"b", "=", "x">>, <<"A", "=", "1">>, <<"1", ",", "x">>,
+                 <<"y">>, <<"=", ",">>, <<"b", "=">>, <<"2">>, <<"X">>, <<",">>}
+GrepOpts == {<<>>, <<"-i">>, <<"-v">>, <<"-a">>, <<"-i", "-v">>, <<"-a", "-v">>, <<"-a", "-i">>}
+\* regular expressions on field names, each with the names of the case space ("a", "b") it matches
+NamePatterns == {<<"^a$", <<"a">>>>, <<"^[ab]$", <<"a", "b">>>>, <<"b", <<"b">>>>, <<"^z", <<>>>>, <<"\"A\"i", <<"a">>>>, <<"^.$", <<"a", "b">>>>,
+                 <<"a|b", <<"a", "b">>>>, <<"[^a]", <<"b">>>>}
 Configs ==
   {Cfg("cat", 0, <<>>, ""), Cfg("nothing", 0, <<>>, ""), Cfg("tac", 0, <<>>, ""), Cfg("group-like", 0, <<>>, ""),
    Cfg("skip-trivial-records", 0, <<>>, ""), Cfg("shuffle", 0, <<>>, ""), Cfg("bootstrap", 0, <<>>, "")}
@@ -25,6 +32,9 @@ Configs ==
   \cup {Cfg("group-by", 0, g, "") : g \in {<<"a">>, <<"b">>, <<"a", "b">>}}
   \cup {Cfg("uniq-a", 0, <<>>, o) : o \in {"", "-c", "-n"}}
   \cup {Cfg("sample", n, g, "") : n \in {0, 1, 2}, g \in {<<>>, <<"a">>}}
+  \cup {Cfg("grep", 0, p, o) : p \in GrepPatterns, o \in GrepOpts}
+  \cup {[v |-> "having-fields-re", n |-> 0, g |-> <<pm[1]>>, o |-> o, m |-> pm[2]] :
+           pm \in NamePatterns, o \in {"--all-matching", "--any-matching", "--none-matching"}}
 \* Group-by values containing the comma or empty: a record's group is the TUPLE of its group-by values, so ("x,y","z") and
 \* ("x","y,z") are different groups whatever text an implementation joins them into.  (The engine renders DKVP with ";".)
 RUsep == { <<P("a", "x,y"), P("b", "z")>>, <<P("a", "x"), P("b", "y,z")>>, <<P("a", "x"), P("b", "y")>>,
@@ -34,5 +44,18 @@ AB == <<"a", "b">>
 SepConfigs ==
   {Cfg("head", 1, AB, ""), Cfg("head", 2, AB, ""), Cfg("tail", 1, AB, ""), Cfg("tail", 2, AB, ""), Cfg("cat", 0, AB, "-n"),
    Cfg("cat", 0, AB, "-N"), Cfg("group-by", 0, AB, ""), Cfg("decimate", 2, AB, "-b"), Cfg("decimate", 2, AB, "-e")}
+\* Slow arrival: longer streams delivered one record at a time with a pause after each (the engine runs these cases with
+\* --records-per-batch 1 and a delay at the line reader's hook), so that a verb that tells the reader to stop - or believes
+\* it may - does so while most of the input has not been read yet.  What the verb outputs does not depend on arrival times.
+RU3 == { <<P("a", "1"), P("b", "x")>>, <<P("a", "2"), P("b", "y")>>, <<P("b", "x")>> }
+SlowStreams == UNION {[1..l -> RU3] : l \in 4..5}
+SlowConfigs ==
+  {Cfg("head", n, g, "") : n \in {0, 1, 2}, g \in Gs}
+  \cup {Cfg("tail", n, g, "") : n \in {1, 2}, g \in {<<>>, <<"a">>}}
+  \cup {Cfg("decimate", 2, g, "-b") : g \in {<<>>, <<"a">>}}
+  \cup {Cfg("cat", 0, <<"a">>, "-n"), Cfg("group-by", 0, <<"a">>, ""), Cfg("uniq-a", 0, <<>>, "-c"), Cfg("filter", 0, <<>>, "NR % 2 == 1"),
+        Cfg("head", -1, <<"a">>, ""), Cfg("tail", 2, <<"a">>, "+"), Cfg("nothing", 0, <<>>, ""), Cfg("tac", 0, <<>>, ""),
+        Cfg("sample", 1, <<"a">>, ""), Cfg("having-fields", 0, <<"a">>, "--at-least")}
 Cases == {[c |-> c, s |-> s] : c \in Configs, s \in Streams} \cup {[c |-> c, s |-> s] : c \in SepConfigs, s \in StreamsSep}
+         \cup {[c |-> c, s |-> s, slow |-> TRUE] : c \in SlowConfigs, s \in SlowStreams}
 =============================================================================
